@@ -254,10 +254,11 @@ structure Env (p : Fun.CheckedProgram) (P : Prog) : Prop where
 def SigLifted (P : Prog) (st : CompileState) : Prop :=
   ∀ D ∈ st.liftedStatements, P.defs.find? (fun d => d.name = D.name) = some D
 
-/-- every lifted definition checks in its own context, and all its identifiers are good -/
+/-- every lifted definition checks in its own context, all its identifiers are good, its body is
+`strict` (Scc/Core/TypedStrict.lean) -/
 def LiftedOk (P : Prog) (G : String → Prop) (st : CompileState) : Prop :=
   ∀ D ∈ st.liftedStatements, D.body.check P D.ctx = true ∧ allIdsStmt (GoodId G) D.body ∧
-    ∀ b ∈ D.ctx, GoodId G b.var
+    (∀ b ∈ D.ctx, GoodId G b.var) ∧ D.body.strict P = true
 
 theorem SigLifted.of_fresh {P : Prog} {a b : CompileState} (h : SigLifted P b) (hf : Fresh a b) :
     SigLifted P a := by
@@ -354,18 +355,19 @@ theorem clausesNames_sub : ∀ (cs : Fun.Clauses), ∀ x ∈ clausesNames cs, x 
     · exact .inl (.inl h)
     · exact .inr (clausesNames_sub rest x h)
 
-/-! ## "checks, and all identifiers are good" -/
+/-! ## "checks, all identifiers are good, and strict" -/
 
 section
 variable (P : Prog) (G : String → Prop)
 
 def TOK (Δ : Ctx) (pc : PC) (ty : Ty) (t : Term) : Prop :=
-  t.check P Δ pc ty = true ∧ allIdsTerm (GoodId G) t
-def SOK (Δ : Ctx) (s : Stmt) : Prop := s.check P Δ = true ∧ allIdsStmt (GoodId G) s
+  t.check P Δ pc ty = true ∧ allIdsTerm (GoodId G) t ∧ t.strict P = true
+def SOK (Δ : Ctx) (s : Stmt) : Prop :=
+  s.check P Δ = true ∧ allIdsStmt (GoodId G) s ∧ s.strict P = true
 def AOK (Δ : Ctx) (ctx : Ctx) (as : Args) : Prop :=
-  as.check P Δ ctx = true ∧ allIdsArgs (GoodId G) as
+  as.check P Δ ctx = true ∧ allIdsArgs (GoodId G) as ∧ as.strict P = true
 def COK (Δ : Ctx) (sigs : List XtorSig) (cl : Clauses) : Prop :=
-  cl.check P Δ sigs = true ∧ allIdsClauses (GoodId G) cl
+  cl.check P Δ sigs = true ∧ allIdsClauses (GoodId G) cl ∧ cl.strict P = true
 
 end
 
@@ -373,22 +375,23 @@ variable {P : Prog} {G : String → Prop}
 
 theorem TOK.var {Δ : Ctx} {pc : PC} {ty : Ty} {v : Ident}
     (hl : lookupBinding Δ v = some ⟨v, pc, ty⟩) (hg : GoodId G v) : TOK P G Δ pc ty (.var pc v ty) :=
-  ⟨check_var_iff.2 ⟨rfl, rfl, hl⟩, hg⟩
+  ⟨check_var_iff.2 ⟨rfl, rfl, hl⟩, hg, by simp [Term.strict]⟩
 
 theorem TOK.var_head {Δ : Ctx} {pc : PC} {ty : Ty} {v : Ident} (hg : GoodId G v) :
     TOK P G (⟨v, pc, ty⟩ :: Δ) pc ty (.var pc v ty) :=
   TOK.var (lookupBinding_cons_self ⟨v, pc, ty⟩ Δ) hg
 
 theorem TOK.mu {Δ : Ctx} {pc : PC} {ty : Ty} {v : Ident} {s : Stmt} (hg : GoodId G v)
-    (hs : SOK P G (⟨v, pc.flip, ty⟩ :: Δ) s) : TOK P G Δ pc ty (.mu pc v ty s) :=
-  ⟨check_mu_iff.2 ⟨rfl, rfl, hs.1⟩, hg, hs.2⟩
+    (hty : tyDeclared P ty = true) (hs : SOK P G (⟨v, pc.flip, ty⟩ :: Δ) s) :
+    TOK P G Δ pc ty (.mu pc v ty s) :=
+  ⟨check_mu_iff.2 ⟨rfl, rfl, hs.1⟩, ⟨hg, hs.2.1⟩, by simp [Term.strict, hty, hs.2.2]⟩
 
 theorem TOK.lit {Δ : Ctx} (n : Int) : TOK P G Δ .prd .i64 (.lit n) :=
-  ⟨by simp [Term.check, PC.beq_iff, Ty.beq_iff], trivial⟩
+  ⟨by simp [Term.check, PC.beq_iff, Ty.beq_iff], trivial, by simp [Term.strict]⟩
 
 theorem TOK.op {Δ : Ctx} {a b : Term} {o : BinOp} (ha : TOK P G Δ .prd .i64 a)
     (hb : TOK P G Δ .prd .i64 b) : TOK P G Δ .prd .i64 (.op a o b) := by
-  refine ⟨?_, ha.2, hb.2⟩
+  refine ⟨?_, ⟨ha.2.1, hb.2.1⟩, by simp [Term.strict, ha.2.2, hb.2.2]⟩
   simp only [Term.check, Bool.and_eq_true]
   exact ⟨⟨⟨PC.beq_iff.2 rfl, Ty.beq_iff.2 rfl⟩, ha.1⟩, hb.1⟩
 
@@ -396,13 +399,16 @@ theorem TOK.xtor {Δ : Ctx} {pc : PC} {T : Ident} {d : TypeDecl} {sig : XtorSig}
     {as : Args} (hd : findDecl (if pc == .prd then P.dataTypes else P.codataTypes) T = some d)
     (hs : findSig d.xtors name = some sig) (ha : AOK P G Δ sig.args as) :
     TOK P G Δ pc (.decl T) (.xtor pc name as (.decl T)) :=
-  ⟨check_xtor_iff.2 ⟨rfl, rfl, T, d, sig, rfl, hd, hs, ha.1⟩, ha.2⟩
+  ⟨check_xtor_iff.2 ⟨rfl, rfl, T, d, sig, rfl, hd, hs, ha.1⟩, ha.2.1, by simp [Term.strict, ha.2.2]⟩
 
 theorem TOK.xcase {Δ : Ctx} {pc : PC} {T : Ident} {d : TypeDecl} {cl : Clauses}
     (hd : findDecl (if pc == .prd then P.codataTypes else P.dataTypes) T = some d)
-    (hc : COK P G Δ d.xtors cl) (hv : cl.covers d.xtors = true) :
+    (hc : COK P G Δ d.xtors cl) (hv : cl.covers d.xtors = true)
+    (htags : cl.tags = d.xtors.map (·.name)) :
     TOK P G Δ pc (.decl T) (.xcase pc (.decl T) cl) :=
-  ⟨check_xcase_iff.2 ⟨rfl, rfl, T, d, rfl, hd, hc.1, hv⟩, hc.2⟩
+  ⟨check_xcase_iff.2 ⟨rfl, rfl, T, d, rfl, hd, hc.1, hv⟩, hc.2.1, by
+    simp only [Term.strict, hd, Bool.and_eq_true, decide_eq_true_eq]
+    exact ⟨htags, hc.2.2⟩⟩
 
 theorem TOK.weaken_cons {Δ : Ctx} {pc : PC} {ty : Ty} {t : Term} (a : Binding)
     (h : TOK P G Δ pc ty t) (hn : ∀ b ∈ tfvTerm t [], b.var ≠ a.var) : TOK P G (a :: Δ) pc ty t :=
@@ -413,61 +419,90 @@ theorem TOK.weaken_append {Δ : Ctx} {pc : PC} {ty : Ty} {t : Term} (ctx : Ctx)
     TOK P G (ctx ++ Δ) pc ty t :=
   ⟨term_weaken_append ctx h.1 hn, h.2⟩
 
-theorem SOK.cut {Δ : Ctx} {ty : Ty} {p c : Term} (hp : TOK P G Δ .prd ty p)
-    (hc : TOK P G Δ .cns ty c) : SOK P G Δ (.cut ty p c) := by
-  refine ⟨?_, hp.2, hc.2⟩
+theorem SOK.cut {Δ : Ctx} {ty : Ty} {p c : Term} (hty : tyDeclared P ty = true)
+    (hp : TOK P G Δ .prd ty p) (hc : TOK P G Δ .cns ty c) : SOK P G Δ (.cut ty p c) := by
+  refine ⟨?_, ⟨hp.2.1, hc.2.1⟩, by simp [Stmt.strict, hty, hp.2.2, hc.2.2]⟩
   simp only [Stmt.check, Bool.and_eq_true]
   exact ⟨hp.1, hc.1⟩
 
 theorem SOK.ifc {Δ : Ctx} {srt : IfSort} {a b : Term} {t e : Stmt} (ha : TOK P G Δ .prd .i64 a)
     (hb : TOK P G Δ .prd .i64 b) (ht : SOK P G Δ t) (he : SOK P G Δ e) :
     SOK P G Δ (.ifc srt a b t e) := by
-  refine ⟨?_, ha.2, hb.2, ht.2, he.2⟩
+  refine ⟨?_, ⟨ha.2.1, hb.2.1, ht.2.1, he.2.1⟩,
+    by simp [Stmt.strict, ha.2.2, hb.2.2, ht.2.2, he.2.2]⟩
   simp only [Stmt.check, Bool.and_eq_true]
   exact ⟨⟨⟨ha.1, hb.1⟩, ht.1⟩, he.1⟩
 
 theorem SOK.ifz {Δ : Ctx} {srt : IfSort} {a : Term} {t e : Stmt} (ha : TOK P G Δ .prd .i64 a)
     (ht : SOK P G Δ t) (he : SOK P G Δ e) : SOK P G Δ (.ifz srt a t e) := by
-  refine ⟨?_, ha.2, ht.2, he.2⟩
+  refine ⟨?_, ⟨ha.2.1, ht.2.1, he.2.1⟩, by simp [Stmt.strict, ha.2.2, ht.2.2, he.2.2]⟩
   simp only [Stmt.check, Bool.and_eq_true]
   exact ⟨⟨ha.1, ht.1⟩, he.1⟩
 
 theorem SOK.print {Δ : Ctx} {nl : Bool} {a : Term} {n : Stmt} (ha : TOK P G Δ .prd .i64 a)
     (hn : SOK P G Δ n) : SOK P G Δ (.print nl a n) := by
-  refine ⟨?_, ha.2, hn.2⟩
+  refine ⟨?_, ⟨ha.2.1, hn.2.1⟩, by simp [Stmt.strict, ha.2.2, hn.2.2]⟩
   simp only [Stmt.check, Bool.and_eq_true]
   exact ⟨ha.1, hn.1⟩
 
 theorem SOK.exit {Δ : Ctx} {a : Term} {ty : Ty} (ha : TOK P G Δ .prd .i64 a) :
-    SOK P G Δ (.exit a ty) := ⟨by simp only [Stmt.check]; exact ha.1, ha.2⟩
+    SOK P G Δ (.exit a ty) :=
+  ⟨by simp only [Stmt.check]; exact ha.1, ha.2.1, by simp [Stmt.strict, ha.2.2]⟩
 
 theorem SOK.call {Δ : Ctx} {f : Ident} {as : Args} {ty : Ty} {D : Def}
     (hD : P.defs.find? (fun d => d.name = f) = some D) (ha : AOK P G Δ D.ctx as) :
-    SOK P G Δ (.call f as ty) := ⟨check_call_iff.2 ⟨D, hD, ha.1⟩, ha.2⟩
+    SOK P G Δ (.call f as ty) :=
+  ⟨check_call_iff.2 ⟨D, hD, ha.1⟩, ha.2.1, by simp [Stmt.strict, ha.2.2]⟩
 
-theorem AOK.nil {Δ : Ctx} : AOK P G Δ [] .nil := ⟨by simp [Args.check], trivial⟩
+theorem AOK.nil {Δ : Ctx} : AOK P G Δ [] .nil :=
+  ⟨by simp [Args.check], trivial, by simp [Args.strict]⟩
 
 theorem AOK.cons {Δ : Ctx} {pc : PC} {t : Term} {r : Args} {b : Binding} {bs : Ctx}
     (hpc : pc = b.chi) (ht : TOK P G Δ pc b.ty t) (hr : AOK P G Δ bs r) :
     AOK P G Δ (b :: bs) (.cons pc t r) := by
-  refine ⟨?_, ht.2, hr.2⟩
+  refine ⟨?_, ⟨ht.2.1, hr.2.1⟩, by simp [Args.strict, ht.2.2, hr.2.2]⟩
   simp only [Args.check, Bool.and_eq_true]
   exact ⟨⟨PC.beq_iff.2 hpc, ht.1⟩, hr.1⟩
 
 theorem AOK.snoc {Δ : Ctx} {ctx : Ctx} {as : Args} {pc : PC} {t : Term} {b : Binding}
     (ha : AOK P G Δ ctx as) (hpc : pc = b.chi) (ht : TOK P G Δ pc b.ty t) :
     AOK P G Δ (ctx ++ [b]) (argsSnoc as pc t) :=
-  ⟨args_snoc_check as ctx pc t b ha.1 hpc ht.1, allIds_argsSnoc as pc t ha.2 ht.2⟩
+  ⟨args_snoc_check as ctx pc t b ha.1 hpc ht.1, allIds_argsSnoc as pc t ha.2.1 ht.2.1,
+    strict_argsSnoc as pc t ha.2.2 ht.2.2⟩
 
 theorem COK.nil {Δ : Ctx} {sigs : List XtorSig} : COK P G Δ sigs .nil :=
-  ⟨by simp [Clauses.check], trivial⟩
+  ⟨by simp [Clauses.check], trivial, by simp [Clauses.strict]⟩
 
 theorem COK.cons {Δ : Ctx} {sigs : List XtorSig} {x : Ident} {ctx : Ctx} {b : Stmt} {r : Clauses}
     {sig : XtorSig} (hs : findSig sigs x = some sig) (hm : ctxMatches ctx sig.args = true)
     (hg : ∀ a ∈ ctx, GoodId G a.var) (hb : SOK P G (ctx ++ Δ) b) (hr : COK P G Δ sigs r) :
     COK P G Δ sigs (.cons x ctx b r) := by
-  refine ⟨?_, hg, hb.2, hr.2⟩
+  refine ⟨?_, ⟨hg, hb.2.1, hr.2.1⟩, by simp [Clauses.strict, hb.2.2, hr.2.2]⟩
   simp only [Clauses.check, Bool.and_eq_true, hs]
   exact ⟨⟨hm, hb.1⟩, hr.1⟩
+
+/-! ## declared types -/
+
+/-- an instantiated Fun type is a declared Core type of the target program -/
+theorem tyDeclared_of_tyIn {p : Fun.CheckedProgram} (env : Env p P) {τ : Fun.Ty} (h : TyIn p τ) :
+    tyDeclared P (compileTy τ) = true := by
+  rcases h with rfl | h | h
+  · rfl
+  · cases hd : dataDecl p τ with
+    | none => simp [hd] at h
+    | some d =>
+      obtain ⟨T, hT, hf⟩ := findDecl_data env hd
+      rw [hT]
+      simp [tyDeclared, hf]
+  · cases hd : codataDecl p τ with
+    | none => simp [hd] at h
+    | some d =>
+      obtain ⟨T, hT, hf⟩ := findDecl_codata env hd
+      rw [hT]
+      simp [tyDeclared, hf]
+
+theorem tyDeclared_of_typed {p : Fun.CheckedProgram} (env : Env p P) {t : Fun.Term} {Γ : Fun.Ctx}
+    {τ : Fun.Ty} (h : TypedM p t Γ τ) : tyDeclared P (compileTy τ) = true :=
+  tyDeclared_of_tyIn env (tyIn_of_typed p t Γ τ h)
 
 end Scc.Fun2Core.Typed
